@@ -18,7 +18,7 @@ CHECK = {
              "(small, degenerate min == max, medium, int64 limits, +-1e300 / DBL_MAX, denormal, around 2^53), registered in a configurable_t between "
              "two other parameters, then 1..10 operations: assign int64/int32/double (bounds, bounds +- 1 / +- 1 ulp / +- 0.5, NaN, +-inf, +-0, +-1e300, "
              "+-2^63), assign int32/int64/double pairs, assign strings (clean literals, blanks, trailing characters, '+', hex, overflow, inf/nan, "
-             "empty, garbage, pairs with each delimiter ';,:|/ ', one / three tokens), assign enumerators (valid, invalid, of another enumeration), "
+             "empty, garbage, pairs with each delimiter ';,:|/ ', one / three tokens), assign enumerators (valid, invalid, of another enumeration; the harness enumeration alpha/beta/gamma/delta/alp/betamax has names that are proper prefixes of other names, like the library's aic/aicc), "
              "write+read of the parameter and of the configurable, typed reads of every kind, copies, lookups of unregistered names. Oracle = the "
              "reference model in the harness: must-accept if the value is exactly representable in the kind and inside the domain, must-reject if it "
              "is of another kind / non-finite / not representable / violates a bound or the pair ordering after conversion, open (either outcome) if "
